@@ -286,7 +286,8 @@ def main():
     # and this property's quick check must still give the expected exit code (1 unless the fault file says otherwise).
     # A fault that is no longer detected means the check lost sensitivity: exit 2 (never an alarm about /repo).
     selftest = {"run": 0, "as_expected": 0, "unexpected": []}
-    if tier == "thorough" and not os.environ.get("VERIF_NO_SELFTEST") and not failures and not undecided:
+    open_known = set(x.get("obligation") for x in known if x.get("status") == "open")
+    if tier == "thorough" and not os.environ.get("VERIF_NO_SELFTEST") and not undecided and all(f.get("obligation") in open_known for f in failures + kani_violations):
         import mutate as mutlib
         os.environ["VERIF_SELFTEST_FAST"] = "1"  # inside the regression only the exit code matters: Kani counterexamples are not replayed
         jobs = []
